@@ -111,6 +111,23 @@ def reader_seq(b, P=None):
             for a, pb in zip(n.get("a", ()), params):
                 if pb:
                     mark(a, pb[0]["name"])
+    # one hop through a let: `let a = r.read_u8()?; …; TileBBox::new(z, a, …)` gives the read the parameter name it reaches
+    if P is not None:
+        let_of = {}
+        for n in ir.walk_nodes(b["body"]):
+            if n.get("k") == "let" and "init" in n and n["pat"].get("k") == "bind":
+                rd = [y for y in ir.walk_nodes(n["init"]) if is_read(y)]
+                if len(rd) == 1:
+                    let_of[n["pat"]["hid"]] = rd[0]
+        for n in ir.walk_nodes(b["body"]):
+            if n.get("k") == "call" and n.get("q") in P.by_q:
+                params = [ir.pat_binds(p) for p in P.fn(n["q"]).get("params", ())]
+                for a, pb in zip(n.get("a", ()), params):
+                    x = ir.strip(a)
+                    while x is not None and x.get("k") in ("cast", "try"):
+                        x = ir.strip(x["e"])
+                    if pb and x is not None and x.get("k") == "path" and x.get("r") == "local" and x["hid"] in let_of:
+                        dest.setdefault(id(let_of[x["hid"]]), []).append(pb[0]["name"])
     for n in _eval_order(b["body"]):
         if n.get("k") == "call" and (n.get("q") or "").endswith(("::new_be", "::new_le")) and "ValueReader" in (n.get("q") or ""):
             order = n["q"][-2:]
@@ -139,6 +156,11 @@ def _tokens(name):
 
 def names_match(a, b):
     """do a written value path and a read destination path denote the same field?"""
+    if "?" not in a and "?" not in b:
+        sa_ = [_tokens(x) - GENERIC for x in a.replace("[]", "").replace("()", "").split(".")]
+        sb_ = [_tokens(x) - GENERIC for x in b.replace("[]", "").replace("()", "").split(".")]
+        if any(x and x == y for x in sa_ for y in sb_):
+            return True
     ta, tb = _tokens(a), _tokens(b)
     if not ta or not tb or "?" in a or "?" in b:
         return False
@@ -239,10 +261,13 @@ def block_geometry_rules(ck, P, rule="R-BLOCK-GEOM"):
     for prim, nm, node in seq:
         names.setdefault(nm.split(".")[0], node)
     calls = [n for n in ir.walk_nodes(b["body"]) if n.get("k") == "call" and (n.get("q") or "").endswith("TileBBox::new") and len(n["a"]) == 5]
+    # the i-th primitive read is, by R-WIRE, the i-th field of the published layout: name the locals by that role
     lets = {}
-    for n in ir.walk_nodes(b["body"]):
-        if n.get("k") == "let" and "init" in n and n["pat"].get("k") == "bind":
-            lets[n["pat"]["name"]] = n["pat"]
+    roles = [nm for _, nm in SPEC_LAYOUT["versatiles.block"]["fields"]]
+    for (prim, _nm, node), role in zip(seq, roles):
+        for n in ir.walk_nodes(b["body"]):
+            if n.get("k") == "let" and "init" in n and n["pat"].get("k") == "bind" and ir.contains(n["init"], lambda y: y is node):
+                lets.setdefault(role, n["pat"])
 
     def S(nm):
         return A.local_sym(lets[nm]) if nm in lets else A.TOP
@@ -250,10 +275,12 @@ def block_geometry_rules(ck, P, rule="R-BLOCK-GEOM"):
     glob = None
     for c in calls:
         ts = [A.ev(a, env0) for a in c["a"]]
-        if any(("sym", (lets[nm]["hid"], nm)) in m for t in ts[1:] if t is not A.TOP for m in t for nm in ("x", "y") if nm in lets):
+        if any(("sym", (lets[nm]["hid"], lets[nm]["name"])) in m for t in ts[1:] if t is not A.TOP for m in t for nm in ("x", "y") if nm in lets):
             glob = (c, ts)
     ok = False
     why = "no TileBBox::new combining the local box with the block position"
+    if glob is not None and all(nm in lets for nm in ("x", "y", "z", "x_min", "y_min", "x_max", "y_max")):
+        pass
     if glob is not None and all(nm in lets for nm in ("x", "y", "z", "x_min", "y_min", "x_max", "y_max")):
         c, ts = glob
         bx, by = A.mul(S("x"), A.const(B)), A.mul(S("y"), A.const(B))
@@ -268,7 +295,7 @@ def block_geometry_rules(ck, P, rule="R-BLOCK-GEOM"):
         off = [f for f in st[0]["fields"] if f["name"] == "offset"]
         if off:
             cn = [y for y in ir.walk_nodes(off[0]["e"]) if y.get("k") == "call" and (y.get("q") or "").endswith("TileCoord3::new")]
-            ok_off = bool(cn) and [ir.place_str(a) for a in cn[0]["a"]] == ["x", "y", "z"]
+            ok_off = bool(cn) and [ir.local_hid(a) for a in cn[0]["a"]] == [lets[k_]["hid"] if k_ in lets else -1 for k_ in ("x", "y", "z")]
     ck.check(ok_off, rule, "reader|offset", "reader: block position = TileCoord3::new(x, y, z) of the values read", "reader: block position is not (x, y, z)", ir.loc(b))
     # ---- writer-side constructor
     b = nw[0]
